@@ -3,6 +3,7 @@ package c14
 import (
 	"encoding/json"
 	"fmt"
+	"net"
 	"os"
 	"strings"
 	"testing"
@@ -344,6 +345,7 @@ func execute(t ev.TB, c *chainCase) ([]string, []observed) {
 	}
 	obs := make([]observed, len(c.Reqs))
 	defer func() {
+		up.KillConns(true) // RST, before the proxy closes its side: no TIME_WAIT sockets left behind
 		if stalled(obs) >= 0 {
 			// an abandoned stream stays "active" for ever: removing the listener would wait out its drain time
 			go cs.Close()
@@ -377,6 +379,7 @@ func driveH1(t ev.TB, c *chainCase, cs *mesh.Case, lg *caseLog, tokens []string,
 	var cl *mesh.H1Client
 	defer func() {
 		if cl != nil {
+			rstClose(cl.C)
 			cl.Close()
 		}
 	}()
@@ -446,6 +449,7 @@ func driveH1(t ev.TB, c *chainCase, cs *mesh.Case, lg *caseLog, tokens []string,
 			}
 		}
 		// no reply: this connection is of no further use (HTTP/1 answers in order)
+		rstClose(cl.C)
 		cl.Close()
 		cl = nil
 	}
@@ -455,6 +459,14 @@ func driveH1(t ev.TB, c *chainCase, cs *mesh.Case, lg *caseLog, tokens []string,
 			last := len(c.Reqs) - 1
 			obs[last].Replies = append(obs[last].Replies, reply{Status: -1, Body: "stray bytes: " + string(head(extra, 200))})
 		}
+	}
+}
+
+// rstClose makes the following Close send a RST instead of a FIN: thousands of cases per minute must not
+// leave their client sockets in TIME_WAIT (the machine's ephemeral ports are shared with other checks).
+func rstClose(c net.Conn) {
+	if tc, ok := c.(*net.TCPConn); ok {
+		_ = tc.SetLinger(0)
 	}
 }
 
@@ -487,7 +499,7 @@ func driveBolt(t ev.TB, c *chainCase, cs *mesh.Case, lg *caseLog, tokens []strin
 	if err != nil {
 		inconclusive(t, c, "dial: %v", err)
 	}
-	defer xc.Close()
+	defer func() { rstClose(xc.C); xc.Close() }()
 	const idBase = 7000
 	frames := func() map[int][]reply {
 		fs, _ := xc.Responses()
